@@ -75,6 +75,24 @@ def judge(res, cfg, hist, i, op, rec, model, case, queries):
     if model is not None and model["wcalls"] != exp and rec["ret"] == model["ret"]:
         res.model_vs_spec.append({"case": case, "model": model["wcalls"], "spec": exp})
         return False
+    # "issued after the in-memory and adapter changes": at the moment of the notification memory and store already are
+    # what they are when the call returns
+    for snap in rec.get("wsnaps", []):
+        late_mem = snap["pol"] != rec["pol"]
+        late_store = snap["store"] is not None and rec.get("store") is not None and snap["store"] != rec["store"]
+        if late_mem or late_store:
+            res.violation(
+                {
+                    "signature": f"C20:{sig_op[0]}:{sig_op[1] if len(sig_op) > 1 and sig_op[1] in ('p', 'g', 'g2') else ''}:{cfg.watcher}{':async' if cfg.is_async else ''}:order",
+                    "what": f"{cfg.shape}, {cfg.watcher} watcher: {list(sig_op)} notified {rec['wcalls']} while {'memory' if late_mem else 'the adapter'} did not yet hold the change: at notification {snap['pol'] if late_mem else snap['store']}, on return {rec['pol'] if late_mem else rec['store']}",
+                    "case": case,
+                    "expected": "notified after the in-memory and adapter changes",
+                    "observed": "notified before",
+                    "model_text": ec.TEXT[cfg.shape],
+                    "order": True,
+                }
+            )
+            return False
     if rec["wcalls"] != exp:
         res.violation(
             {
@@ -209,7 +227,7 @@ def run(ctx):
         "RBAC model x 2 initial policies x {plain, WatcherEx, WatcherUpdatable} recording watchers x {Enforcer, AsyncEnforcer} with a recording "
         "adapter: every management call of the alphabet alone, with auto-notify off, with auto-save off, every pair of calls (sync; async in the "
         "thorough tier), plus seeded random histories of length 3-8; after every call the notifications are compared with the prescribed "
-        "one and with the Lean model; non-trivial/distinct = (configuration, history)"
+        "one and with the Lean model, and what memory and the adapter's store held at the moment of each notification with what they hold on return; non-trivial/distinct = (configuration, history)"
     )
     res.exhaustive = True
     return res
@@ -227,5 +245,6 @@ def replay(obj):
     r = common.Result()
     out = ec.run_history(cfg, hist, [], fresh_oracle=False)
     for i, (op, rec) in enumerate(zip(hist, out)):
+        rec["pre"] = out[i - 1]["pol"] if i else {k: [list(x) for x in cfg.initial.get(k, [])] for k in ("p", "g", "g2")}
         judge(r, cfg, hist, i, op, rec, None, case, None)
     return bool(r.spec_violations)
